@@ -12,8 +12,8 @@
          A heartbeat deletes EXACTLY the groups whose time to live has run out (T heartbeats were survived since
          the last publish / the creation) and the groups that hold no per-peer state; every other group's time
          to live decreases by one.  A deleted group is gone ENTIRELY (all per-peer state inside it; no topic
-         entry without groups stays behind); a further RPC or publish starts from nothing.  Peer RPCs never
-         refresh the time to live.
+         entry without groups stays behind, NOTHING is kept for a topic without live groups); a further RPC or
+         publish starts from nothing.  Peer RPCs never refresh the time to live.
    X04.b ExactCount.      For every topic and peer p the peer-initiated counter of p EQUALS the number of live
          groups of the topic that p initiated during its current connection and that the node has not published
          itself (Inc on creation, Dec on expiry and on the publish that converts the group to locally initiated,
@@ -53,12 +53,15 @@
                    until a heartbeat removes them (strict reading of X04.c fails: finding X04-F2).
      StaleDec      TRUE = the code: Dec(initiator) when such a left-over group expires / is converted decrements
                    whatever p has initiated SINCE (X04.b fails: finding X04-F1).
+     KeepEntries   TRUE = the code: peerInitiatedGroupCounter[topic] is created by the first publish or RPC that names
+                   the topic (whatever the topic: it comes from the peer) and is NEVER deleted (the last clause of
+                   X04.a fails: finding X04-F4).
    Dev: a seeded defect (non-vacuity), "none" otherwise.                                                    *)
 EXTENDS Naturals, Sequences, FiniteSets, TLC, Json
 
 CONSTANTS Peers, Topics, Groups, Parts,
           CTtl, CLimT, CLimP, CEager, CRegossip, CSloppy,    \* parameters of the MC / generator runs
-          ResetOnClose, StaleDec, Dev,
+          ResetOnClose, StaleDec, KeepEntries, Dev,
           MaxLen, Bursts,
           Acts                                                \* the calls enabled in a run (subset of AllActs)
 
@@ -85,6 +88,7 @@ S0(c) == [c |-> c,
           mesh |-> [t \in Topics |-> {}],
           req |-> {},                                   \* pairs <<p, t>>
           mine |-> [t \in Topics |-> [g \in Groups |-> [has |-> FALSE, parts |-> {}]]],
+          keys |-> {},                                  \* topics that have a counter entry (peerInitiatedGroupCounter[t])
           closed |-> {}, everClosed |-> {}]
 
 NoRet == [k |-> "", ps |-> {}]
@@ -150,7 +154,7 @@ PubOp(s, t, g, m, errs) ==
         sent  == {Rpc(p, t, g, wants(p) /\ act(p).hasMsg, IF wants(p) THEN act(p).msg ELSE {}, act(p).hasMeta, act(p).meta) :
                       p \in {q \in keys \ errs : (wants(q) /\ act(q).hasMsg) \/ act(q).hasMeta}}
         ret   == IF keys \cap errs = {} THEN NoRet ELSE [k |-> "actions", ps |-> keys \cap errs]
-        s1    == [s EXCEPT !.g[t][g] = G3, !.ctr = ctr1, !.mine[t][g] = [has |-> TRUE, parts |-> m],
+        s1    == [s EXCEPT !.g[t][g] = G3, !.ctr = ctr1, !.keys = @ \cup {t}, !.mine[t][g] = [has |-> TRUE, parts |-> m],
                            !.closed = @ \ s.mesh[t]]
     IN  Res(s1, sent, {CB("actions", NoPeer, t, g, FALSE, {}, FALSE, <<>>, G2.ps)}, ret, NoGh)
 
@@ -168,8 +172,8 @@ RpcOp(s, p, t, g, hasMeta, meta, hasMsg, apperr, accept) ==
     IN  IF drop
           THEN IF Dev = "createondrop"
                  THEN Res([s EXCEPT !.g[t][g] = [NoGroup EXCEPT !.live = TRUE, !.ttl = s.c.ttl, !.by = p]], {}, {}, [k |-> accept, ps |-> {}], NoGh)
-                 ELSE Res(s, {}, {}, [k |-> accept, ps |-> {}], NoGh)
-          ELSE Res([s EXCEPT !.g[t][g] = G2, !.ctr = ctr1, !.closed = @ \ {p}], {}, {cb},
+                 ELSE Res([s EXCEPT !.keys = @ \cup {t}], {}, {}, [k |-> accept, ps |-> {}], NoGh)
+          ELSE Res([s EXCEPT !.g[t][g] = G2, !.ctr = ctr1, !.keys = @ \cup {t}, !.closed = @ \ {p}], {}, {cb},
                    IF apperr THEN [k |-> "app", ps |-> {}] ELSE NoRet, NoGh)
 
 (* ------------------------------------------------------------------ Heartbeat *)
@@ -185,7 +189,8 @@ HbOp(s) ==
                     IF <<t, g>> \in dead THEN NoGroup
                     ELSE IF s.g[t][g].live THEN [s.g[t][g] EXCEPT !.ttl = @ - 1, !.age = @ + 1] ELSE s.g[t][g]]]
         del  == {[x |-> x, age |-> At(s, x).age, empty |-> Keys(At(s, x)) = {}] : x \in dead}
-    IN  Res([s EXCEPT !.g = g1, !.ctr = ctr1], {}, {}, NoRet, [del |-> del, gos |-> {}])
+        keys1 == IF KeepEntries THEN s.keys ELSE {t \in s.keys : \E g \in Groups : g1[t][g].live}
+    IN  Res([s EXCEPT !.g = g1, !.ctr = ctr1, !.keys = keys1], {}, {}, NoRet, [del |-> del, gos |-> {}])
 
 (* ------------------------------------------------------------------ OnClosedOutboundStream *)
 CloseOp(s, p) ==
@@ -271,6 +276,8 @@ P_X04_a == /\ \A x \in TG : At(S, x).live => (At(S, x).ttl + At(S, x).age = S.c.
            /\ \A x \in TG : ~At(S, x).live => At(S, x) = NoGroup
            /\ out.delOK
            /\ out.a = "hb" => \A x \in TG : At(S, x).live => Keys(At(S, x)) # {}
+\* nothing is kept for a topic without live groups (the counter entries: finding X04-F4)
+P_X04_aDead == \A t \in S.keys : \E g \in Groups : S.g[t][g].live
 P_X04_b == \A t \in Topics, p \in Peers : S.ctr[t][p] = Cardinality(Counted(S, t, p))
 P_X04_c == /\ \A t \in Topics : Cardinality(CountedAll(S, t)) <= S.c.limT
            /\ \A t \in Topics, p \in Peers : Cardinality(Counted(S, t, p)) <= S.c.limP
